@@ -173,7 +173,13 @@ def merge_val(c, a, b):
             f[k] = m
         return StructV(a.cls, f)
     if isinstance(a, ObjRef) and isinstance(b, ObjRef) and a.name == b.name:
-        return a
+        if a.null is None and b.null is None:
+            return a
+        na = a.null if a.null is not None else z3.BoolVal(False)
+        nb = b.null if b.null is not None else z3.BoolVal(False)
+        if na.eq(nb):
+            return a
+        return ObjRef(a.name, a.cls, z3.If(c, na, nb))       # the pointer may have been reset on one branch only
     if isinstance(a, (Opaque, VoidV)) and isinstance(b, (Opaque, VoidV)):
         return a
     return None
